@@ -2,7 +2,9 @@
      prop n total | ceil n total | icc n ystart yend | argb n height
      alphas n mbW mbH | hash n size            -> "I s:e s:e ..." (ranges in spawn order)
      encw n mbH | decw n items                 -> "I <workers>"
-     hashpar n size loweffort | encpar n mbH method dosearch -> "I 0|1"           *)
+     hashpar n size loweffort | encpar n mbH method dosearch -> "I 0|1"
+     cover lo hi s:e s:e ...   -> "I ok" iff the ranges tile [lo, hi) (ConcPartition.is_tiling,
+                                  proved to imply exact_partition) *)
 open Zutil
 
 let show_ranges (l : (BinNums.coq_Z * BinNums.coq_Z) list) : string =
@@ -25,5 +27,10 @@ let () = iter_lines (fun line ->
   | ["decw"; n; k] -> Printf.printf "I %s\n" (string_of_z (ConcPartition.workers_decode_frames (z n) (z k)))
   | ["hashpar"; n; s; le] -> Printf.printf "I %s\n" (sb (ConcPartition.hashchain_uses_parallel (z n) (z s) (b le)))
   | ["encpar"; n; h; m; ds] -> Printf.printf "I %s\n" (sb (ConcPartition.encodeframe_uses_parallel (z n) (z h) (z m) (b ds)))
+  | "cover" :: lo :: hi :: rs ->
+      let parse r = match String.split_on_char ':' r with
+        | [a; b] -> (z a, z b) | _ -> failwith "bad range" in
+      let rs = if rs = ["-"] then [] else Stdlib.List.map parse rs in
+      print_endline (if ConcPartition.is_tiling rs (z lo) (z hi) then "I ok" else "I bad")
   | [] -> ()
   | _ -> print_endline "ERR bad-line")
